@@ -55,6 +55,13 @@ EXPLICIT = [
      "increase number of radical (c2) decrease bond order (c1,c2) }", True),
     ("rule DOWNANY{ reactant r1{ C labeled c1 O labeled o1 any bond to c1 } increase number of radical (c1) "
      "increase number of radical (o1) decrease bond order (c1,o1) }", True),
+    # an untyped break is a single-bond break: it does not describe a double or triple bond of the pattern
+    ("rule UB2{ reactant r1{ C labeled c1 C labeled c2 double bond to c1 } increase number of radical (c1) "
+     "increase number of radical (c2) break bond(c1,c2) }", False),
+    ("rule UB3{ reactant r1{ C labeled c1 C labeled c2 triple bond to c1 } increase number of radical (c1) "
+     "increase number of radical (c2) break bond(c1,c2) }", False),
+    ("rule UBO{ reactant r1{ C labeled c1 O labeled o1 double bond to c1 } increase number of radical (c1) "
+     "increase number of radical (o1) break bond(c1,o1) }", False),
     ("rule BAD1{ reactant r1{ C labeled c1 H labeled h1 single bond to c1 } break bond(c1,h1) }", False),
     ("rule BAD2{ reactant r1{ C labeled c1 H labeled h1 single bond to c1 } increase number of radical (c1) break bond(c1,h1) }", False),
     ("rule BAD3{ reactant r1{ C labeled c1 C labeled c2 double bond to c1 } decrease bond order (c1,c2) }", False),
